@@ -17,6 +17,9 @@ func init() {
 
 func checkC10(c *Ctx) {
 	l := c.L
+	checkDecodedValueNonNil(c)
+	checkPooledBytes(c, "FRESH-pooled-bytes")
+	checkForceUpgradeTable(c, "TABLE-force-rebuild")
 	c.rule("TOTAL-importer", "importer is panic-free, allocation-bounded and loop-free on arbitrary node streams", 30)
 	c.rule("OWN-root-marker", "root marker written only by Commit; publication after the synchronous write", 4)
 	c.rule("ERR-export", "an export that hits a storage error cannot end with 'done'", 2)
